@@ -649,8 +649,27 @@ def r2_10(ctx, rc):
                 return 'REUSED', pol
             return 'OTHER:' + '/'.join(names), pol
         return 'OTHER:' + ast.unparse(a)[:40], pol
-    b = [classify(f) for f in (bfacts or {}).values()]
-    r = [classify(f) for f in (rfacts or {}).values()]
+    def is_validation(sg, f, site):
+        """The fact comes from a guard whose other branch only raises (an
+        argument/state validation, not a condition of the action)."""
+        pol, atom, func, cn = f
+        for x in sg.nodes:
+            if x.kind == 'out' and x.cn is cn:
+                for d, lab in x.succ:
+                    if isinstance(lab, tuple) and len(lab) == 4 and \
+                            lab[0] != pol and lab[0] in ('T', 'F'):
+                        seen = sg.reach([d])
+                        if site.id in seen or any(
+                                e in seen for e in sg.normal_exits()):
+                            return False
+                return True
+        return False
+    b = [classify(f) for f in (bfacts or {}).values()
+         if not (classify(f)[0].startswith('OTHER') and
+                 is_validation(sgb, f, bsites[0]))]
+    r = [classify(f) for f in (rfacts or {}).values()
+         if not (classify(f)[0].startswith('OTHER') and
+                 is_validation(sgr, f, rsites[0]))]
     b = [x for x in b if x[0] != 'REUSED']
     key = 'backup guard'
     if [x for x in b if x[0].startswith('OTHER')] or \
